@@ -1,5 +1,6 @@
 use crate::common::*;
 
+pub mod c01;
 pub mod c04;
 pub mod c06;
 pub mod c07;
@@ -17,12 +18,29 @@ pub fn stack_mb(engine: &str) -> usize {
 
 pub fn dispatch(engine: &str, cfg: &Cfg) -> i32 {
     match engine {
+        "c01" => c01::run(cfg),
         "c04" => c04::run(cfg),
         "c06" => c06::run(cfg),
         "c07" => c07::run(cfg),
         "c08" => c08::run(cfg),
         "c09" => c09::run(cfg),
         "c20" => c20::run(cfg),
+        "cc" => {
+            // vh cc FILE [-O] [args-text]: compile a source file the CLI way and optionally run it
+            let text = std::fs::read_to_string(&cfg.rest[0]).expect("read");
+            let dash_o = cfg.rest.iter().any(|x| x == "-O");
+            match crate::repo::compile_cli_modern(&text, None, &[], dash_o) {
+                Ok(c) => {
+                    println!("{}", c.prog.show());
+                    if let Some(a) = cfg.rest.iter().skip(1).find(|x| x.starts_with('(') || x.starts_with("0x")) {
+                        let args = crate::repo::classic_assemble(a).expect("args");
+                        println!("=> {}", consensus_run(&c.prog, &args).show());
+                    }
+                }
+                Err(e) => println!("ERROR {}", e.msg()),
+            }
+            0
+        }
         _ => {
             eprintln!("unknown engine {engine}");
             2
